@@ -1848,5 +1848,8 @@ func (a *arraySortCtx) Less(j, k int) bool {
 }
 
 func (a *arraySortCtx) Swap(j, k int) {
-	a.obj.swap(j, k)
+	// the comparator may have shrunk the array
+	if n := a.obj.sortLen(); j < n && k < n {
+		a.obj.swap(j, k)
+	}
 }
